@@ -14,7 +14,14 @@ for p in props:
     pid = p['id']
     if pid not in claimed:
         continue
-    t = T.get(pid, {})
+    t = dict(T.get(pid, {}))
+    try:
+        ev = json.load(open(f'evidence/{pid}.json'))
+        rule = ev['coverage'].get('rule', '')
+        t.setdefault('text', 'Exploration only: no counter-example among the generated cases (' + rule[:600] + ('…' if len(rule) > 600 else '') + '). Not a proof; absence is never established.')
+        t.setdefault('note', 'Trusted: the harness oracle and generators (DESIGN.md section 5 and the rule/assumptions fields of the evidence file), proptest, rustc. Executed paths and bounded sizes only. Assumptions: ' + '; '.join(ev.get('assumptions', []))[:700])
+    except Exception:
+        pass
     checks.append({
         'property_id': pid,
         'quick_cmd': f'./check {pid} quick',
